@@ -410,6 +410,43 @@ func genConfig(r *hlib.Rng, idx int) *config {
 		mapdef{"8", "out.other.", false, E(4)}, mapdef{"M", "out.other.", false, M(0)}, // maps for a name we do not serve
 	)
 	c.Names = append(c.Names, "q.w.z.test.", "x.w.z.test.", "y.x.w.z.test.", "n8.z.test.", "no8.z.test.", "nomap.z.test.", "onlye.z.test.")
+	// map isolation: assigned maps WITHOUT any subnet (odd i) between neighbours in key
+	// order (ids p1 < p2 < ... differ in the last byte) whose range points end non-null
+	// (::/0, a subnet reaching the top of the address space) or begin at the bottom
+	P := func(i int) int { return 0x7001 + i }
+	edge := []string{"::/0", "0.0.0.0/0", "ffff::/16", "ff00::/8", "::/96", "0.0.0.0/8", "255.0.0.0/8", "::/8", "8000::/1",
+		"255.255.255.255/32", "ffff:ffff:ffff:ffff:ffff:ffff:ffff:ffff/128"}
+	fixed := [][]string{{"::/0", "0.0.0.0/0"}, nil, {"ffff::/16", "::/8", "0.0.0.0/8"}, nil, {"::/0", "ffff::/16"}, nil, {"::/96", "0.0.0.0/8", "255.0.0.0/8"}}
+	for i := 0; i < 7; i++ {
+		var ns []subnet
+		if i%2 == 0 {
+			cidrs := fixed[i]
+			if idx > 0 {
+				cidrs = nil
+				seen := map[string]bool{}
+				for n := 1 + r.Intn(3); n > 0; n-- {
+					x := edge[r.Intn(len(edge))]
+					if !seen[x] {
+						seen[x] = true
+						cidrs = append(cidrs, x)
+					}
+				}
+			}
+			for k, x := range cidrs {
+				ns = append(ns, mkNet(x, 0x7000+0x10*(i+1)+k))
+			}
+		}
+		c.Nets[P(i)] = ns
+	}
+	c.Nets[M(4)] = nil // a resolver map without subnets right after M(3), which ends with ::/0
+	pM := []int{M(0), M(0), M(1), M(4), M(3), M(1), M(4)}
+	for i := 0; i < 7; i++ {
+		name := fmt.Sprintf("p%d.z.test.", i)
+		c.Maps = append(c.Maps, mapdef{"8", name, false, P(i)}, mapdef{"M", name, false, pM[i]})
+		c.Names = append(c.Names, name)
+		// records for the locations of every neighbour, so that a foreign location would show in the answer
+		addRecs(strings.TrimSuffix(name, "."), P(0), P(2), P(4), P(6), M(0), M(1), M(3))
+	}
 	addRecs("*.w.z.test", E(4), E(6), M(0))
 	addRecs("x.w.z.test", E(6), M(0))
 	addRecs("n8.z.test", M(0))
@@ -1154,6 +1191,38 @@ func run(a *hlib.Args, e *hlib.Emitter) error {
 					runQuery(func(x c10case) { e.Emit(x) }, c, ci, bks, q, fmt.Sprintf("inner-ecs%d", fam), k%4 == 0, c.Text)
 					k++
 				}
+			}
+		}
+		// systematic pass: names whose ECS (or resolver) map has no subnet at all, IPv4
+		// and IPv6 clients at the bottom, the middle and the top of the address space:
+		// default scope, the resolver decides; nothing of a neighbouring map leaks in
+		for _, i := range []int{1, 3, 5, 6} {
+			name := fmt.Sprintf("p%d.z.test.", i)
+			type cl struct {
+				fam, src int
+				ip       string
+			}
+			for _, x := range []cl{{1, 24, "10.1.2.0"}, {1, 32, "0.1.2.3"}, {1, 32, "255.1.2.3"}, {1, 0, "0.0.0.0"}, {1, 8, "255.0.0.0"},
+				{2, 32, "2001:db8::"}, {2, 32, "ffff:1::"}, {2, 128, "::2"}, {2, 16, "ff::"}, {2, 0, "::"},
+				{2, 128, "ffff:ffff:ffff:ffff:ffff:ffff:ffff:ffff"}, {0, 0, ""}, {-1, 0, ""}} {
+				q := query{Name: name, UDP: 1232, HasOp: x.fam >= 0,
+					RIP: hlib.Ints(func() []byte { y := mustIP(resolvers[k%len(resolvers)]); return y[:] }())}
+				class := "empty-map/noopt"
+				switch {
+				case x.fam == 0:
+					q.Opts = []qopt{{Code: 8, IsECS: true, Fam: 0, Addr: []int{}, Data: []int{}}}
+					class = "empty-map/ecs0"
+				case x.fam > 0:
+					a := mustIP(x.ip)
+					q.Opts = []qopt{{Code: 8, IsECS: true, Fam: x.fam, Src: x.src, Addr: addrBytesFor(x.fam, a, x.src, 0, r), Data: []int{}}}
+					class = fmt.Sprintf("empty-map/ecs%d", x.fam)
+				}
+				if a.Tier != "thorough" && i == 6 && k%2 == 0 {
+					k++
+					continue
+				}
+				runQuery(func(x c10case) { e.Emit(x) }, c, ci, bks, q, class, k%5 == 0, c.Text)
+				k++
 			}
 		}
 		for _, b := range bks {
